@@ -41,6 +41,14 @@ pub struct GroupResult {
 ///   v <idx> <clause>|<msg>   case idx violates a per-case clause
 ///   o <hash>           an observed outcome hash
 ///   d <cases> <transitions> <nontrivial>   finished
+/// user + system CPU time of a process in clock ticks (100 per second on Linux)
+fn cpu_ticks(pid: u32) -> Option<u64> {
+    let s = std::fs::read_to_string(format!("/proc/{}/stat", pid)).ok()?;
+    let rest = &s[s.rfind(')')? + 1..];
+    let f: Vec<&str> = rest.split_whitespace().collect();
+    Some(f.get(11)?.parse::<u64>().ok()? + f.get(12)?.parse::<u64>().ok()?)
+}
+
 pub fn run_group(args: &[String], horizon: Duration, mem_kb: u64, first: usize, max_restarts: usize) -> GroupResult {
     let exe = std::env::current_exe().expect("current_exe");
     let mut res = GroupResult::default();
@@ -75,12 +83,15 @@ pub fn run_group(args: &[String], horizon: Duration, mem_kb: u64, first: usize, 
         });
         let mut current: Option<usize> = None;
         let mut last = Instant::now();
+        let pid = child.id();
+        let mut cpu_last = cpu_ticks(pid).unwrap_or(0);
         let mut finished = false;
         let mut hung = false;
         loop {
             match rx.recv_timeout(Duration::from_millis(100)) {
                 Ok(l) => {
                     last = Instant::now();
+                    cpu_last = cpu_ticks(pid).unwrap_or(cpu_last);
                     let mut it = l.splitn(3, ' ');
                     match (it.next(), it.next()) {
                         (Some("c"), Some(i)) => current = i.parse().ok(),
@@ -107,10 +118,16 @@ pub fn run_group(args: &[String], horizon: Duration, mem_kb: u64, first: usize, 
                     }
                 }
                 Err(mpsc::RecvTimeoutError::Timeout) => {
+                    // the horizon is measured in CPU time the child has used since its last line (a
+                    // child that is merely starved by other load is not hung); a wall-clock limit
+                    // of 20 horizons catches a child that neither runs nor reports
                     if last.elapsed() > horizon {
-                        hung = true;
-                        let _ = child.kill();
-                        break;
+                        let used = cpu_ticks(pid).map(|t| t.saturating_sub(cpu_last)).unwrap_or(u64::MAX);
+                        if used as f64 / 100.0 > horizon.as_secs_f64() || last.elapsed() > horizon * 20 {
+                            hung = true;
+                            let _ = child.kill();
+                            break;
+                        }
                     }
                 }
                 Err(mpsc::RecvTimeoutError::Disconnected) => break,
